@@ -247,13 +247,27 @@ func (e *atEnv) drivePhaseTwo(xid string, commit bool, deliveries int) []*faketc
 }
 
 func (e *atEnv) awaitPhaseTwo(ch chan *wire.Msg, reqSeq int64) *wire.Msg {
+	return e.awaitPhaseTwoFrom(ch, reqSeq, e.ch.LogSize())
+}
+
+// awaitPhaseTwoFrom: logOff is the size of the client's log before the request was sent; the processors log
+// "branch rollback error" / "branch commit error" when the resource manager failed (such a request gets no answer).
+func (e *atEnv) awaitPhaseTwoFrom(ch chan *wire.Msg, reqSeq int64, logOff int64) *wire.Msg {
 	deadline := time.Now().Add(20 * time.Second)
 	var endedAt time.Time
+	grace := 400 * time.Millisecond
 	for time.Now().Before(deadline) {
 		select {
 		case m := <-ch:
 			return m
-		case <-time.After(20 * time.Millisecond):
+		case <-time.After(10 * time.Millisecond):
+		}
+		if endedAt.IsZero() && e.ch.LogSize() > logOff {
+			if l := e.ch.LogFrom(logOff); strings.Contains(l, "branch rollback error") || strings.Contains(l, "branch commit error") {
+				// the processor logs this after the manager returned and sends nothing afterwards
+				endedAt = time.Now()
+				grace = 50 * time.Millisecond
+			}
 		}
 		if endedAt.IsZero() {
 			for _, j := range e.db.E.JournalSince(reqSeq) {
@@ -262,7 +276,7 @@ func (e *atEnv) awaitPhaseTwo(ch chan *wire.Msg, reqSeq int64) *wire.Msg {
 					break
 				}
 			}
-		} else if time.Since(endedAt) > 400*time.Millisecond {
+		} else if time.Since(endedAt) > grace {
 			return nil
 		}
 		if !e.ch.Alive() {
